@@ -241,7 +241,8 @@ D_EXTRA = [0x85, 0xA0, 0x2003, 0x3000, 0x2028,      # whitespace
            0xE9, 0xC9, 0x3C9, 0x3A9,                # cased letters é É ω Ω
            0x17F,                                   # LONG S: lower-case, upper() is ASCII 'S', casefold() is 's'
            0x663,                                   # ARABIC-INDIC DIGIT THREE
-           0x20AC]                                  # euro sign
+           0x20AC,                                  # euro sign
+           0xFEFF]                                  # ZERO WIDTH NO-BREAK SPACE / byte order mark (a format character)
 
 
 def domain_D():
